@@ -108,7 +108,7 @@ func (g *genC18) Config(rng *Rng, tier string) Config {
 	if tier == "thorough" {
 		g.nb = 40 + rng.Intn(80)
 	}
-	g.net = newNet(rng, []string{"tx_dup", "tx_delay", "tx_reorder", "out_of_gas", "crash_restart", "tx_drop"}, 5)
+	g.net = newNet(rng, []string{"tx_dup", "tx_delay", "tx_reorder", "out_of_gas", "crash_restart", "tx_drop", "multi_msg"}, 5)
 	c.InvCheckPeriod = uint(rng.Pick64(0, 0, 1))
 	return c
 }
@@ -188,29 +188,29 @@ type oracleC18 struct {
 	NopOracle
 	inbox   map[string][]inboxEntry // model: recipient -> entries
 	blocked map[string]bool         // owner|sender
-	preTo   string                  // resolved target of the create being delivered
-	preOK   bool
-	preBlk  []string
+	preTo   []string   // per message: resolved target of a create
+	preOK   []bool
+	preBlk  [][]string // per message: resolved block targets
 }
 
 func (o *oracleC18) Start(w *World) { o.inbox = map[string][]inboxEntry{}; o.blocked = map[string]bool{} }
 
 func (o *oracleC18) BeforeStep(w *World, st *Step, msgs []sdk.Msg) {
-	o.preOK = false
-	o.preBlk = nil
-	if len(msgs) != 1 {
-		return
-	}
+	o.preTo = make([]string, len(msgs))
+	o.preOK = make([]bool, len(msgs))
+	o.preBlk = make([][]string, len(msgs))
 	rns := w.node().app.RnsKeeper
-	switch m := msgs[0].(type) {
-	case *notiftypes.MsgCreateNotification:
-		if a, err := rns.Resolve(w.Ctx(), m.To); err == nil {
-			o.preTo, o.preOK = a.String(), true
-		}
-	case *notiftypes.MsgBlockSenders:
-		for _, t := range m.ToBlock {
-			if a, err := rns.Resolve(w.Ctx(), t); err == nil {
-				o.preBlk = append(o.preBlk, a.String())
+	for i, mm := range msgs {
+		switch m := mm.(type) {
+		case *notiftypes.MsgCreateNotification:
+			if a, err := rns.Resolve(w.Ctx(), m.To); err == nil {
+				o.preTo[i], o.preOK[i] = a.String(), true
+			}
+		case *notiftypes.MsgBlockSenders:
+			for _, t := range m.ToBlock {
+				if a, err := rns.Resolve(w.Ctx(), t); err == nil {
+					o.preBlk[i] = append(o.preBlk[i], a.String())
+				}
 			}
 		}
 	}
@@ -315,53 +315,56 @@ func (o *oracleC18) compare(w *World, kind string) {
 
 func (o *oracleC18) AfterStep(w *World, st *Step, msgs []sdk.Msg, res *abci.ResponseDeliverTx) {
 	kind := shortKind(msgs)
-	if len(msgs) == 1 && res.Code == 0 {
-		switch m := msgs[0].(type) {
-		case *notiftypes.MsgCreateNotification:
-			if !o.preOK {
-				w.Violate("C18:sent-to-unresolvable", "notification to %q succeeded although the target does not resolve", m.To)
-				break
-			}
-			if o.blocked[o.preTo+"|"+canonAddr(m.Creator)] {
-				w.Violate("C18:blocked-delivered", "%s is blocked by %s but its notification was accepted", m.Creator, o.preTo)
-			}
-			e := inboxEntry{o.preTo, canonAddr(m.Creator), w.now.UnixMicro(), m.Contents, string(m.PrivateContents)}
-			for _, x := range o.inbox[o.preTo] {
-				if x.From == e.From && x.Time == e.Time {
-					w.Probe("same_time_double_send")
-				}
-			}
-			o.inbox[o.preTo] = append(o.inbox[o.preTo], e)
-			w.Probe("send_ok")
-			if m.To != o.preTo {
-				w.Probe("send_by_name_ok")
-			}
-			w.NonTrivial()
-		case *notiftypes.MsgDeleteNotification:
-			var keep []inboxEntry
-			removed := false
-			for _, x := range o.inbox[m.Creator] {
-				if x.From == m.From && x.Time == m.Time {
-					removed = true
+	if res.Code == 0 {
+		for i, mm := range msgs {
+			switch m := mm.(type) {
+			case *notiftypes.MsgCreateNotification:
+				if !o.preOK[i] {
+					w.Violate("C18:sent-to-unresolvable", "notification to %q succeeded although the target does not resolve", m.To)
 					continue
 				}
-				keep = append(keep, x)
+				to := o.preTo[i]
+				if o.blocked[to+"|"+canonAddr(m.Creator)] {
+					w.Violate("C18:blocked-delivered", "%s is blocked by %s but its notification was accepted", m.Creator, to)
+				}
+				e := inboxEntry{to, canonAddr(m.Creator), w.now.UnixMicro(), m.Contents, string(m.PrivateContents)}
+				for _, x := range o.inbox[to] {
+					if x.From == e.From && x.Time == e.Time {
+						w.Probe("same_time_double_send")
+					}
+				}
+				o.inbox[to] = append(o.inbox[to], e)
+				w.Probe("send_ok")
+				if m.To != to {
+					w.Probe("send_by_name_ok")
+				}
+				w.NonTrivial()
+			case *notiftypes.MsgDeleteNotification:
+				var keep []inboxEntry
+				removed := false
+				for _, x := range o.inbox[m.Creator] {
+					if x.From == canonAddr(m.From) && x.Time == m.Time {
+						removed = true
+						continue
+					}
+					keep = append(keep, x)
+				}
+				o.inbox[m.Creator] = keep
+				if removed {
+					w.Probe("delete_ok")
+				} else {
+					w.Probe("delete_nothing")
+				}
+			case *notiftypes.MsgBlockSenders:
+				for _, b := range o.preBlk[i] {
+					o.blocked[canonAddr(m.Creator)+"|"+b] = true
+				}
+				w.Probe("block_ok")
 			}
-			o.inbox[m.Creator] = keep
-			if removed {
-				w.Probe("delete_ok")
-			} else {
-				w.Probe("delete_nothing")
-			}
-		case *notiftypes.MsgBlockSenders:
-			for _, b := range o.preBlk {
-				o.blocked[canonAddr(m.Creator)+"|"+b] = true
-			}
-			w.Probe("block_ok")
 		}
 	}
 	if len(msgs) == 1 && res.Code != 0 {
-		if m, ok := msgs[0].(*notiftypes.MsgCreateNotification); ok && o.preOK && o.blocked[o.preTo+"|"+canonAddr(m.Creator)] {
+		if m, ok := msgs[0].(*notiftypes.MsgCreateNotification); ok && o.preOK[0] && o.blocked[o.preTo[0]+"|"+canonAddr(m.Creator)] {
 			w.Probe("blocked_send_rejected")
 		}
 	}
